@@ -13,6 +13,7 @@ mod report;
 mod tierd;
 mod tierl;
 mod tierp;
+mod tiers;
 
 use std::path::PathBuf;
 
